@@ -142,7 +142,7 @@ fn body(pool: Arc<dyn PoolA>, mon: Arc<Mon>, script: Vec<Step>, long: u32, tid: 
                 Step::Alloc { with } => { alloc(with, &mut held, &mut local, &mut k); }
                 Step::DeallocOldest { by_ref } => if !held.is_empty() { dealloc(0, by_ref, &mut held, &mut local) },
                 Step::DeallocNewest { by_ref } => if !held.is_empty() { let i = held.len() - 1; dealloc(i, by_ref, &mut held, &mut local) },
-                Step::AllocUntilNone => { let mut g = 0; while alloc(g % 2 == 0, &mut held, &mut local, &mut k) && g < 20 { g += 1 } }
+                Step::AllocUntilNone => { let mut g = 0; while alloc(g % 2 == 0, &mut held, &mut local, &mut k) && g < pool.n() + 1 { g += 1 } }   // (bounded: the whole history must stay within the WGL checker's 128 operations)
                 Step::DeallocAll => while !held.is_empty() { dealloc(0, false, &mut held, &mut local) },
             }
         }
